@@ -380,7 +380,7 @@ inline
 auto any_color_converted_view(const any_image_view<Views...>& src, CC cc)
     -> typename color_converted_view_type<any_image_view<Views...>, DstP, CC>::type
 {
-    return color_converted_view(src, cc);
+    return color_converted_view<DstP>(src, cc);
 }
 
 /// \ingroup ImageViewTransformationsColorConvert
@@ -393,7 +393,7 @@ inline
 auto any_color_converted_view(const any_image_view<Views...>& src)
     -> typename color_converted_view_type<any_image_view<Views...>, DstP>::type
 {
-    return color_converted_view(src);
+    return color_converted_view<DstP>(src);
 }
 
 /// \}
